@@ -1,4 +1,4 @@
-/- Driver for C02 (see `Exec/Driver.lean`). -/
+/- Driver for C10: the same executor model as C02 (`Exec/Driver.lean`); the harness plants errors. -/
 import YashModel.Common.Proto
 import YashModel.Exec.Driver
 def main : IO Unit := YashModel.Proto.mainLoop YashModel.Exec.runLine
